@@ -7,6 +7,7 @@ def main():
     bad=0; drift=0
     n=min(len(a),len(b))
     for i in range(n):
+        if proj(b[i])=='-': continue
         if proj(a[i])!=proj(b[i]):
             bad+=1
             if bad<=10: print('MISMATCH case:',c[i][:200],'| impl:',a[i][:100],'| model:',b[i][:100])
